@@ -78,5 +78,14 @@ CHECKS.update({
           "PRNG call histories over New/Reset/AddChecks/AddBlock/AddSequence/AddAction/Up/Plan/Err with valid and invalid arguments: no panic, Err()==nil iff the interpreter has no error, the first error is sticky until Reset, nothing changes while an error is pending, an emitted plan is deep-equal to the directly constructed hierarchy, second Plan() fails.",
           "Trusted base: the reference interpreter follows the property statement; inputs on which the statement is silent are not generated.", "DESIGN.md §C20"),
 })
+
+CHECKS.update({
+ "C17": c("exploration", "runtime canary monitor: request/response types generated with reflect.StructOf from a type grammar, secure-tagged leaves hold unique canaries searched for in every clone (JSON) and every rendered report file",
+          "Run-time generated types (structs, pointers, slices, maps, interfaces to depth 5, plus hand-written named/embedded/multi-pointer types) placed as Req of sequence and check actions and as Resp of attempts; no canary may appear in clone.Plan/Block/Sequence/Checks/Action output (default and WithKeepState) nor in any file reports.Render produces, every PLAIN marker must survive, the original must be unchanged by clone.*, nothing may panic; Register must refuse untagged secret-looking field names reachable through structs and pointers.",
+          "Trusted base: canary search over JSON/HTML bytes; arrays and unexported fields are not generated (documented exceptions); placements below slices/maps/interfaces for the registry clause are counted as information only.", "DESIGN.md §C17"),
+ "C18": c("exploration", "runtime monitor: definition equality, reachable-address disjointness by reflection, mutate-one-observe-other, Submit of the clone",
+          "Plans in four states (fresh, stored, executed-looking with attempts, running snapshots) cloned through all five entry points under all keep-state/keep-secrets combinations: definition equal field by field, no pointer/slice/map address shared between clone and original (incl. Req/Resp/Attempts/State/Meta), default clones stripped of all engine state and accepted by Submit, keep-state clones carry ids/status/times/reason/attempts.",
+          "Trusted base: store.Canon/Diff comparator; the user-supplied Key is not in the statement's list of definition fields and is only counted.", "DESIGN.md §C18"),
+})
 BUILT = set(CHECKS)
 NOT_APPLICABLE = {f"C{i:02d}": "check under construction in this round (runtime monitor designed in DESIGN.md, not yet registered)" for i in range(1, 21) if f"C{i:02d}" not in BUILT}
